@@ -385,6 +385,24 @@ def _region_entries():
     e["GaussianAnalytic:region"] = scaled(M.GaussianAnalytic, delta="pos")
     e["GaussianDiscrete:region"] = scaled(M.GaussianDiscrete, delta="pos", integer=True)
     e["Geometric:region"] = scaled(M.Geometric, integer=True)
+    # magnitude: integer inputs beyond 2^53 (value + noise must be taken in exact integers, or the seeded noise is rounded away
+    # and distinct seeds collapse to one output — seeded change C15-14)
+    BIG = [2 ** 53 + 1, 2 ** 57 + 3, 2 ** 60, -(2 ** 62) + 5, 2 ** 70 + 11]
+
+    def big(cls, bounded=False, pool=None):
+        def make(rs, r):
+            r._v = r.choice(pool or BIG)
+            kw = dict(lower=r._v - 1000, upper=r._v + 1000) if bounded else {}
+            return cls(epsilon=0.05, sensitivity=1, random_state=rs, **kw)
+        return _mech(make, lambda r: [r._v], make_first=True)
+    e["Geometric:magnitude"] = big(M.Geometric)
+    e["GeometricTruncated:magnitude"] = big(M.GeometricTruncated, bounded=True)
+    # GeometricFolded's constructor refuses Python-int bounds with |2 * bound| beyond 2^63 with a TypeError (np.round(2 * lower) has no loop
+    # for such ints): nothing is released, so no property is concerned; the pool stays below
+    e["GeometricFolded:magnitude"] = big(M.GeometricFolded, bounded=True, pool=BIG[:3] + [-(2 ** 61) + 5])
+    e["GaussianDiscrete:magnitude"] = _mech(
+        lambda rs, r: (setattr(r, "_v", r.choice(BIG)), M.GaussianDiscrete(epsilon=0.3, delta=0.1, sensitivity=1, random_state=rs))[1],
+        lambda r: [r._v], make_first=True)
     e["Staircase:region"] = scaled(M.Staircase)
     e["Uniform:region"] = _mech(lambda rs, r: M.Uniform(delta=r.loguniform(1e-6, 0.5), sensitivity=r.loguniform(1e-6, 1e6),
                                                        random_state=rs), lambda r: [r.uniform(-5, 5)])
